@@ -165,8 +165,91 @@ Proof. reflexivity. Qed.
 Lemma cm_keys_nil_views cm : cm_keys cm = [] -> spec_views (cm_keys cm) cm = [160].
 Proof. intros ->. reflexivity. Qed.
 
-(* hash_script_data hashes the ledger's preimage over the witness set emitted for the same redeemers and datums;
+(* ================================================================== fields of an emitted witness set *)
+
+Lemma assoc_skip (pre : list (N * bytes)) k rest :
+  (forall kv, In kv pre -> fst kv <> k) -> assoc_field k (pre ++ rest) = assoc_field k rest.
+Proof.
+  induction pre as [|[k' v] t IH]; intros Hp; [reflexivity|]. cbn [app assoc_field].
+  destruct (k' =? k) eqn:E; [apply N.eqb_eq in E; exfalso; apply (Hp (k', v)); [left; reflexivity|exact E]|].
+  apply IH. intros kv Hin. apply Hp. right. exact Hin.
+Qed.
+
+(* the fields written before the datums carry the keys 0, 1, 2, 3, 6, 7 *)
+Lemma early_fields_keys w kv : In kv (early_fields w) -> In (fst kv) [0; 1; 2; 3; 6; 7].
+Proof.
+  unfold early_fields. intros Hin.
+  repeat (apply in_app_or in Hin as [Hin|Hin]).
+  - destruct (ws_vkeys w); [destruct Hin as [<-|[]]; cbn; auto|destruct Hin].
+  - destruct (ws_native w) as [l|]; [destruct (is_nil l); [destruct Hin|destruct Hin as [<-|[]]; cbn; auto]|destruct Hin].
+  - destruct (ws_bootstraps w); [destruct Hin as [<-|[]]; cbn; auto|destruct Hin].
+  - destruct (ws_plutus_scripts w) as [l|]; [|destruct Hin].
+    repeat (apply in_app_or in Hin as [Hin|Hin]).
+    + destruct (has_version V1 l); [destruct Hin as [<-|[]]; cbn; auto|destruct Hin].
+    + destruct (has_version V2 l); [destruct Hin as [<-|[]]; cbn; auto 10|destruct Hin].
+    + destruct (has_version V3 l); [destruct Hin as [<-|[]]; cbn; auto 10|destruct Hin].
+Qed.
+
+Lemma early_fields_not k w : k = 4 \/ k = 5 -> forall kv, In kv (early_fields w) -> fst kv <> k.
+Proof.
+  intros Hk kv Hin Heq. apply early_fields_keys in Hin. rewrite Heq in Hin.
+  destruct Hk; subst k; cbn in Hin; repeat (destruct Hin as [Hin|Hin]; [discriminate|]); exact Hin.
+Qed.
+
+Lemma assoc_ws_fields w :
+  assoc_field 5 (ws_fields w) =
+    (match ws_redeemers w with Some r => if is_nil (rs_list r) then None else Some (redeemers_bytes r) | None => None end) /\
+  assoc_field 4 (ws_fields w) =
+    (match ws_plutus_data w with Some d => if is_nil (pl_elems d) then None else Some (serialize_as_set false d) | None => None end).
+Proof.
+  unfold ws_fields. split.
+  - rewrite (assoc_skip _ 5) by (apply early_fields_not; auto).
+    destruct (ws_plutus_data w) as [d|]; [destruct (is_nil (pl_elems d))|];
+    (destruct (ws_redeemers w) as [r|]; [destruct (is_nil (rs_list r))|]); reflexivity.
+  - rewrite (assoc_skip _ 4) by (apply early_fields_not; auto).
+    destruct (ws_plutus_data w) as [d|]; [destruct (is_nil (pl_elems d))|];
+    (destruct (ws_redeemers w) as [r|]; [destruct (is_nil (rs_list r))|]); reflexivity.
+Qed.
+
+(* hash_script_data hashes the ledger's preimage over the witness set emitted for the same redeemers and datums
+   (whatever key / bootstrap witnesses that witness set carries besides);
    stated for both values of both switches, the classes are needed only for the value `true` (code as found) *)
+Theorem preimage_spec_with (cd eh : bool) vk bo r cm d :
+  helper_out_of_scope r d = false ->
+  (cd = true -> known_dup_definite d = false) ->
+  (eh = true -> known_empty_datums d = false) ->
+  let fs := ws_fields (helper_witness_set_with vk bo r d) in
+  script_data_preimage_gen cd eh r cm d =
+  ledger_preimage (assoc_field 5 fs) (assoc_field 4 fs) (spec_views (helper_langs r cm) cm).
+Proof.
+  intros Hscope Hcd Heh fs. subst fs.
+  destruct (assoc_ws_fields (helper_witness_set_with vk bo r d)) as [A5 A4]. rewrite A5, A4.
+  assert (Hr : ws_redeemers (helper_witness_set_with vk bo r d) = Some r).
+  { unfold helper_witness_set_with, set_plutus_data. destruct vk, bo, d as [l|]; try destruct (is_nil (pl_elems l)); reflexivity. }
+  assert (Hd : ws_plutus_data (helper_witness_set_with vk bo r d) =
+               match d with Some l => if is_nil (pl_elems l) then None else Some (pl_deduplicated_clone l) | None => None end).
+  { unfold helper_witness_set_with, set_plutus_data. destruct vk, bo, d as [l|]; try destruct (is_nil (pl_elems l)); reflexivity. }
+  rewrite Hr, Hd. clear A5 A4 Hr Hd.
+  unfold script_data_preimage_gen, helper_out_of_scope, helper_langs in *.
+  rewrite views_model_spec.
+  destruct r as [rl rf]. cbn [rs_list rs_format] in *.
+  destruct d as [[de dd]|].
+  - destruct de as [|d0 dt].
+    + destruct eh; [specialize (Heh eq_refl); discriminate|].
+      destruct rl as [|r0 rt]; [discriminate|].
+      cbn [datums_for_hash_gen pl_elems is_nil ledger_preimage]. reflexivity.
+    + assert (Hd : datums_for_hash_gen eh (Some (mk_plist (d0 :: dt) dd)) = Some (mk_plist (d0 :: dt) dd)) by (destruct eh; reflexivity).
+      rewrite Hd.
+      assert (Hset : serialize_as_set_gen cd true (mk_plist (d0 :: dt) dd) =
+                     serialize_as_set false (pl_deduplicated_clone (mk_plist (d0 :: dt) dd))).
+      { apply set_bytes_clone_gen. intros ->. exact (Hcd eq_refl). }
+      cbn [pl_elems is_nil]. cbn [pl_deduplicated_clone pl_elems].
+      assert (Hne : is_nil (dedup_written (d0 :: dt)) = false) by reflexivity. rewrite Hne.
+      destruct rl as [|r0 rt]; cbn [is_nil ledger_preimage]; rewrite Hset; reflexivity.
+  - destruct rl as [|r0 rt]; [discriminate|].
+    cbn [datums_for_hash_gen is_nil ledger_preimage]. reflexivity.
+Qed.
+
 Theorem preimage_spec_gen (cd eh : bool) r cm d :
   helper_out_of_scope r d = false ->
   (cd = true -> known_dup_definite d = false) ->
@@ -174,36 +257,7 @@ Theorem preimage_spec_gen (cd eh : bool) r cm d :
   let fs := ws_fields (helper_witness_set r d) in
   script_data_preimage_gen cd eh r cm d =
   ledger_preimage (assoc_field 5 fs) (assoc_field 4 fs) (spec_views (helper_langs r cm) cm).
-Proof.
-  intros Hscope Hcd Heh fs. subst fs.
-  unfold script_data_preimage_gen, helper_witness_set, helper_out_of_scope, helper_langs in *.
-  rewrite views_model_spec.
-  destruct r as [rl rf]. cbn [rs_list rs_format] in *.
-  destruct d as [[de dd]|].
-  - destruct de as [|d0 dt].
-    + (* Some(empty): there must be a redeemer *)
-      destruct eh; [specialize (Heh eq_refl); discriminate|].
-      destruct rl as [|r0 rt]; [discriminate|].
-      cbn [datums_for_hash_gen pl_elems is_nil set_plutus_data set_redeemers ws_new ws_plutus_scripts ws_plutus_data ws_redeemers].
-      unfold ws_fields. cbn [ws_plutus_scripts ws_plutus_data ws_redeemers rs_list is_nil app assoc_field ledger_preimage N.eqb].
-      reflexivity.
-    + (* Some(non-empty) *)
-      assert (Hd : datums_for_hash_gen eh (Some (mk_plist (d0 :: dt) dd)) = Some (mk_plist (d0 :: dt) dd)) by (destruct eh; reflexivity).
-      rewrite Hd.
-      assert (Hset : serialize_as_set_gen cd true (mk_plist (d0 :: dt) dd) =
-                     serialize_as_set false (pl_deduplicated_clone (mk_plist (d0 :: dt) dd))).
-      { apply set_bytes_clone_gen. intros ->. exact (Hcd eq_refl). }
-      unfold set_plutus_data, set_redeemers, ws_new. cbn [pl_elems is_nil ws_plutus_scripts ws_plutus_data ws_redeemers].
-      unfold ws_fields. cbn [ws_plutus_scripts ws_plutus_data ws_redeemers pl_deduplicated_clone pl_elems].
-      assert (Hne : is_nil (dedup_written (d0 :: dt)) = false) by reflexivity. rewrite Hne.
-      destruct rl as [|r0 rt].
-      * cbn [rs_list is_nil app assoc_field ledger_preimage N.eqb]. rewrite Hset. reflexivity.
-      * cbn [rs_list is_nil app assoc_field ledger_preimage N.eqb]. rewrite Hset. reflexivity.
-  - destruct rl as [|r0 rt]; [discriminate|].
-    cbn [datums_for_hash_gen set_redeemers ws_new ws_plutus_scripts ws_plutus_data ws_redeemers].
-    unfold ws_fields. cbn [ws_plutus_scripts ws_plutus_data ws_redeemers rs_list is_nil app assoc_field ledger_preimage N.eqb].
-    reflexivity.
-Qed.
+Proof. apply preimage_spec_with. Qed.
 
 (* the statement for the code as it stands (the two switches of ScriptData.v) *)
 Theorem preimage_spec r cm d :
@@ -258,15 +312,48 @@ Proof.
   unfold all_langs. cbn [filter]. destruct l; destruct (P V1) eqn:E1, (P V2) eqn:E2, (P V3) eqn:E3; reflexivity.
 Qed.
 
-Lemma mem_sub_langs l ws : mem_lang l (sub_langs ws) = mem_lang l (map w_lang ws).
-Proof. apply mem_filter_all. Qed.
-(* what calc_script_data_hash collects from the sub-builders' language sets is the set of languages of the
-   witnesses it hashes *)
-Lemma used_langs_mem b l : mem_lang l (used_langs b) = mem_lang l (langs_used b).
+Lemma mem_sub_langs c l s :
+  mem_lang l (sub_langs_gen c s) = mem_lang l (map w_lang (ss_witnesses s)) || mem_lang l (stale_sub_gen c s).
 Proof.
-  unfold used_langs, langs_used, all_witnesses. rewrite mem_filter_all. cbn [existsb].
-  rewrite !mem_sub_langs, !map_app, !mem_lang_app. rewrite orb_false_r, !orb_assoc. reflexivity.
+  unfold sub_langs_gen, stale_sub_gen.
+  rewrite (mem_filter_all (fun l => mem_lang l (map w_lang (ss_witnesses s)) || (c && mem_lang l (ss_stale s)))).
+  destruct c; reflexivity.
 Qed.
+
+(* what calc_script_data_hash collects from the sub-builders' language sets: the languages of the witnesses it hashes
+   and (switch on) those of the stale witnesses *)
+Lemma used_langs_mem_gen c b l :
+  mem_lang l (used_langs_gen c b) = mem_lang l (langs_used b) || mem_lang l (stale_langs_gen c b).
+Proof.
+  unfold used_langs_gen, langs_used, stale_langs_gen, all_witnesses, b_inputs, b_collateral, b_mint, b_certs, b_withdrawals, b_votes, b_proposals.
+  rewrite mem_filter_all. cbn [existsb].
+  assert (Hi : forall s, mem_lang l (inputs_langs_gen c s) = mem_lang l (map w_lang (ss_witnesses s)) || mem_lang l (stale_in_gen c s)).
+  { intros s. unfold inputs_langs_gen, stale_in_gen. destruct (ss_witnesses s) eqn:E; cbn [is_nil negb].
+    - rewrite andb_false_r. reflexivity.
+    - rewrite mem_sub_langs, E, andb_true_r. unfold stale_sub_gen. reflexivity. }
+  rewrite !Hi, !mem_sub_langs, !map_app, !mem_lang_app.
+  apply Bool.eq_iff_eq_true. rewrite !orb_true_iff. intuition discriminate.
+Qed.
+
+Lemma stale_covered_mem c b l :
+  known_stale_lang_gen c b = false -> mem_lang l (stale_langs_gen c b) = true -> mem_lang l (langs_used b) = true.
+Proof.
+  unfold known_stale_lang_gen. intros Hk Hm.
+  destruct (mem_lang l (langs_used b)) eqn:E; [reflexivity|exfalso].
+  assert (X : existsb (fun l0 => negb (mem_lang l0 (langs_used b))) (stale_langs_gen c b) = true); [|congruence].
+  unfold mem_lang in Hm. apply existsb_exists in Hm as [y [Hin Hy]]. apply lang_eqb_eq in Hy. subst y.
+  apply existsb_exists. exists l. split; [exact Hin|]. rewrite E. reflexivity.
+Qed.
+
+Lemma used_langs_mem c b l : known_stale_lang_gen c b = false -> mem_lang l (used_langs_gen c b) = mem_lang l (langs_used b).
+Proof.
+  intros Hk. rewrite used_langs_mem_gen. destruct (mem_lang l (stale_langs_gen c b)) eqn:E; [|apply orb_false_r].
+  rewrite (stale_covered_mem c b l Hk E). reflexivity.
+Qed.
+
+(* with the switch off nothing is stale for the hash: the class is empty *)
+Lemma stale_off b : known_stale_lang_gen false b = false.
+Proof. reflexivity. Qed.
 
 Lemma dedup_redeemers_nil l : is_nil (dedup_redeemers l) = is_nil l.
 Proof. destruct l; reflexivity. Qed.
@@ -316,52 +403,10 @@ Lemma get_witness_set_eq b :
   let d := match dedup_pdata (witness_datums (all_witnesses b)) with [] => None | ds => Some (mk_plist ds None) end in
   let r := mk_redeemers (dedup_redeemers (map w_redeemer (all_witnesses b))) None in
   let s := dedup_scripts (witness_scripts (all_witnesses b)) in
-  let wit := if is_nil (all_witnesses b) then ws_new else set_redeemers (set_plutus_scripts ws_new s) r in
+  let w0 := set_native_scripts ws_new (combined_native b) in
+  let wit := if is_nil (all_witnesses b) then w0 else set_redeemers (set_plutus_scripts w0 s) r in
   match add_extra d (b_extra_datums b) with Some l => set_plutus_data wit l | None => wit end.
 Proof. unfold get_witness_set. destruct (all_witnesses b); reflexivity. Qed.
-
-Lemma assoc_skip (pre : list (N * bytes)) k rest :
-  (forall kv, In kv pre -> fst kv <> k) -> assoc_field k (pre ++ rest) = assoc_field k rest.
-Proof.
-  induction pre as [|[k' v] t IH]; intros Hp; [reflexivity|]. cbn [app assoc_field].
-  destruct (k' =? k) eqn:E; [apply N.eqb_eq in E; exfalso; apply (Hp (k', v)); [left; reflexivity|exact E]|].
-  apply IH. intros kv Hin. apply Hp. right. exact Hin.
-Qed.
-
-Definition script_fields (o : option (list script)) : list (N * bytes) :=
-  match o with
-  | Some l => (if has_version V1 l then [(3, enc_scripts_set_by_version V1 l)] else []) ++
-              (if has_version V2 l then [(6, enc_scripts_set_by_version V2 l)] else []) ++
-              (if has_version V3 l then [(7, enc_scripts_set_by_version V3 l)] else [])
-  | None => [] end.
-
-Lemma script_fields_keys o k : k = 4 \/ k = 5 -> forall kv, In kv (script_fields o) -> fst kv <> k.
-Proof.
-  intros Hk kv Hin. destruct o as [l|]; [|destruct Hin]. unfold script_fields in Hin.
-  destruct (has_version V1 l), (has_version V2 l), (has_version V3 l); cbn [app In] in Hin;
-    repeat (destruct Hin as [<-|Hin]; [cbn [fst]; destruct Hk; subst k; discriminate|]); destruct Hin.
-Qed.
-
-Lemma ws_fields_eq w :
-  ws_fields w = script_fields (ws_plutus_scripts w) ++
-    (match ws_plutus_data w with Some d => if is_nil (pl_elems d) then [] else [(4, serialize_as_set false d)] | None => [] end) ++
-    (match ws_redeemers w with Some r => if is_nil (rs_list r) then [] else [(5, redeemers_bytes r)] | None => [] end).
-Proof. reflexivity. Qed.
-
-Lemma assoc_ws_fields w :
-  assoc_field 5 (ws_fields w) =
-    (match ws_redeemers w with Some r => if is_nil (rs_list r) then None else Some (redeemers_bytes r) | None => None end) /\
-  assoc_field 4 (ws_fields w) =
-    (match ws_plutus_data w with Some d => if is_nil (pl_elems d) then None else Some (serialize_as_set false d) | None => None end).
-Proof.
-  rewrite ws_fields_eq. split.
-  - rewrite (assoc_skip _ 5) by (apply script_fields_keys; auto).
-    destruct (ws_plutus_data w) as [d|]; [destruct (is_nil (pl_elems d))|];
-    (destruct (ws_redeemers w) as [r|]; [destruct (is_nil (rs_list r))|]); reflexivity.
-  - rewrite (assoc_skip _ 4) by (apply script_fields_keys; auto).
-    destruct (ws_plutus_data w) as [d|]; [destruct (is_nil (pl_elems d))|];
-    (destruct (ws_redeemers w) as [r|]; [destruct (is_nil (rs_list r))|]); reflexivity.
-Qed.
 
 (* the fields 4 and 5 of the witness set the builder emits, as functions of the collected data *)
 Lemma witness_fields b :
@@ -376,16 +421,20 @@ Lemma witness_fields b :
 Proof.
   intros d r d' fs. subst fs. rewrite get_witness_set_eq. fold d r d'. cbv zeta.
   set (s := dedup_scripts (witness_scripts (all_witnesses b))).
-  set (wit := if is_nil (all_witnesses b) then ws_new else set_redeemers (set_plutus_scripts ws_new s) r).
+  set (w0 := set_native_scripts ws_new (combined_native b)).
+  assert (Hw0 : ws_plutus_data w0 = None /\ ws_redeemers w0 = None).
+  { subst w0. unfold set_native_scripts, ws_new. destruct (is_nil (combined_native b)); split; reflexivity. }
+  destruct Hw0 as [Hw0d Hw0r].
+  set (wit := if is_nil (all_witnesses b) then w0 else set_redeemers (set_plutus_scripts w0 s) r).
   assert (Hwit : ws_plutus_data wit = None /\
                  (match ws_redeemers wit with Some r0 => if is_nil (rs_list r0) then None else Some (redeemers_bytes r0) | None => None end)
                  = (if is_nil (rs_list r) then None else Some (redeemers_bytes r))).
   { subst wit. destruct (all_witnesses b) eqn:EW.
-    - subst r. split; reflexivity.
+    - subst r. cbn [is_nil]. rewrite Hw0d, Hw0r. split; reflexivity.
     - cbn [is_nil].
       assert (Hr : is_nil (rs_list r) = false) by (subst r; cbn [rs_list]; rewrite dedup_redeemers_nil; reflexivity).
-      unfold set_redeemers, set_plutus_scripts, ws_new.
-      destruct (is_nil s); cbn [ws_plutus_data ws_redeemers]; rewrite Hr; split; reflexivity. }
+      unfold set_redeemers, set_plutus_scripts.
+      destruct (is_nil s); cbn [ws_plutus_data ws_redeemers]; rewrite Hr, ?Hw0d; split; reflexivity. }
   destruct Hwit as [Hwd Hwr].
   subst d'. destruct (add_extra d (b_extra_datums b)) as [l|].
   - unfold set_plutus_data. destruct (is_nil (pl_elems l)) eqn:EN.
@@ -433,25 +482,27 @@ Proof.
 Qed.
 
 Definition script_view (b : builder) :=
-  (b_inputs b, b_collateral b, b_mint b, b_certs b, b_withdrawals b, b_votes b, b_proposals b, b_extra_datums b).
+  (b_in b, b_col b, b_mi b, b_ce b, b_wd b, b_vo b, b_pr b, b_extra_datums b).
 
 Lemma script_view_eq b b' : script_view b = script_view b' ->
   all_witnesses b = all_witnesses b' /\ b_extra_datums b = b_extra_datums b' /\
   get_witness_set b = get_witness_set b' /\ langs_used b = langs_used b' /\ has_plutus_inputs b = has_plutus_inputs b'.
 Proof.
   unfold script_view. intros E. injection E as E1 E2 E3 E4 E5 E6 E7 E8.
-  assert (A : all_witnesses b = all_witnesses b') by (unfold all_witnesses; congruence).
+  assert (A : all_witnesses b = all_witnesses b').
+  { unfold all_witnesses, b_inputs, b_collateral, b_mint, b_certs, b_withdrawals, b_votes, b_proposals. congruence. }
+  assert (C : combined_native b = combined_native b') by (unfold combined_native; congruence).
   repeat split; try assumption.
-  - rewrite !get_witness_set_eq, A, E8. reflexivity.
+  - rewrite !get_witness_set_eq, A, C, E8. reflexivity.
   - unfold langs_used. rewrite A. reflexivity.
-  - unfold has_plutus_inputs. congruence.
+  - unfold has_plutus_inputs, b_inputs, b_mint, b_certs, b_withdrawals, b_votes, b_proposals. congruence.
 Qed.
 
-Lemma calc_preimage_eq b cm :
-  calc_preimage b cm =
+Lemma calc_preimage_eq c b cm :
+  calc_preimage_gen c b cm =
   let d := match dedup_pdata (witness_datums (all_witnesses b)) with [] => None | ds => Some (mk_plist ds None) end in
   let r := mk_redeemers (dedup_redeemers (map w_redeemer (all_witnesses b))) None in
-  let* retained := retain_or_fail cm (used_langs b) cm_empty in
+  let* retained := retain_or_fail cm (used_langs_gen c b) cm_empty in
   let d' := add_extra d (b_extra_datums b) in
   if is_some d' || negb (is_nil (rs_list r)) || negb (cm_len retained =? 0)
   then Ok (Some (script_data_preimage r retained d'))
@@ -460,8 +511,8 @@ Proof. reflexivity. Qed.
 
 (* the heart of the property: whatever calc_script_data_hash hashes is the ledger's preimage over the witness set
    get_witness_set emits for the same builder state (two collection paths, two serialisation paths) *)
-Theorem calc_preimage_spec b cm p :
-  wf_builder b -> calc_preimage b cm = Ok p ->
+Theorem calc_preimage_spec_gen c b cm p :
+  wf_builder b -> known_stale_lang_gen c b = false -> calc_preimage_gen c b cm = Ok p ->
   let fs := ws_fields (get_witness_set b) in
   match p with
   | Some pre =>
@@ -473,26 +524,26 @@ Theorem calc_preimage_spec b cm p :
       ledger_script_integrity H (assoc_field 5 fs) (assoc_field 4 fs) (langs_used b) cm = None
   end.
 Proof.
-  intros Hwf Hcalc fs. subst fs.
+  intros Hwf Hstale Hcalc fs. subst fs.
   rewrite calc_preimage_eq in Hcalc. cbv zeta in Hcalc.
   pose proof (witness_fields b) as HF. cbv zeta in HF. destruct HF as [F5 F4].
   pose proof (collect_datums_builder_list (all_witnesses b)) as HBL. rewrite collect_parts in HBL. cbn [fst snd] in HBL.
   set (d := match dedup_pdata (witness_datums (all_witnesses b)) with [] => None | ds => Some (mk_plist ds None) end) in *.
   set (r := mk_redeemers (dedup_redeemers (map w_redeemer (all_witnesses b))) None) in *.
-  destruct (retain_or_fail cm (used_langs b) cm_empty) as [retained| | |] eqn:ER; cbn [bind] in Hcalc; try discriminate.
+  destruct (retain_or_fail cm (used_langs_gen c b) cm_empty) as [retained| | |] eqn:ER; cbn [bind] in Hcalc; try discriminate.
   pose proof (retain_or_fail_get _ _ _ _ ER) as Hget.
-  assert (Hcov : covers cm (used_langs b) = true) by (rewrite <- (retain_or_fail_ok_iff cm (used_langs b) cm_empty), ER; reflexivity).
-  assert (Hget' : forall l, cm_get retained l = if mem_lang l (used_langs b) then cm_get cm l else None).
+  assert (Hcov : covers cm (used_langs_gen c b) = true) by (rewrite <- (retain_or_fail_ok_iff cm (used_langs_gen c b) cm_empty), ER; reflexivity).
+  assert (Hget' : forall l, cm_get retained l = if mem_lang l (used_langs_gen c b) then cm_get cm l else None).
   { intros l. rewrite Hget, cm_get_empty. reflexivity. }
   assert (Hviews : language_views_encoding retained = spec_views (langs_used b) cm).
-  { rewrite (views_retained cm (used_langs b) retained Hget' Hcov).
-    apply spec_views_ext; [apply used_langs_mem|reflexivity]. }
-  assert (Hcov' : forall l, mem_lang l (used_langs b) = true -> is_some (cm_get cm l) = true).
+  { rewrite (views_retained cm (used_langs_gen c b) retained Hget' Hcov).
+    apply spec_views_ext; [intros l; apply used_langs_mem, Hstale|reflexivity]. }
+  assert (Hcov' : forall l, mem_lang l (used_langs_gen c b) = true -> is_some (cm_get cm l) = true).
   { intros l Hl. unfold covers in Hcov. rewrite forallb_forall in Hcov.
     unfold mem_lang in Hl. apply existsb_exists in Hl as [y [Hin Hy]]. apply lang_eqb_eq in Hy. subst y. exact (Hcov _ Hin). }
   assert (Hlen : (cm_len retained =? 0) = is_nil (langs_in_use (langs_used b))).
-  { unfold cm_len, cm_keys, langs_in_use. apply keys_nil_iff. intros l. rewrite Hget', <- used_langs_mem.
-    destruct (mem_lang l (used_langs b)) eqn:M; [apply Hcov', M|reflexivity]. }
+  { unfold cm_len, cm_keys, langs_in_use. apply keys_nil_iff. intros l. rewrite Hget', <- (used_langs_mem c b l Hstale).
+    destruct (mem_lang l (used_langs_gen c b)) eqn:M; [apply Hcov', M|reflexivity]. }
   set (d' := add_extra d (b_extra_datums b)) in *.
   assert (HBL' : builder_list d') by (apply add_extra_builder_list; assumption).
   assert (Hitems : has_script_items b = negb (is_nil (rs_list r)) || is_some d').
@@ -526,17 +577,31 @@ Proof.
     + cbn [ledger_preimage]. rewrite Hviews. repeat split; reflexivity.
 Qed.
 
+Theorem calc_preimage_spec b cm p :
+  wf_builder b -> known_stale_lang b = false -> calc_preimage b cm = Ok p ->
+  let fs := ws_fields (get_witness_set b) in
+  match p with
+  | Some pre =>
+      has_script_items b = true /\
+      pre = ledger_preimage (assoc_field 5 fs) (assoc_field 4 fs) (spec_views (langs_used b) cm) /\
+      ledger_script_integrity H (assoc_field 5 fs) (assoc_field 4 fs) (langs_used b) cm = Some (H pre)
+  | None =>
+      has_script_items b = false /\
+      ledger_script_integrity H (assoc_field 5 fs) (assoc_field 4 fs) (langs_used b) cm = None
+  end.
+Proof. exact (calc_preimage_spec_gen stale_langs_counted b cm p). Qed.
+
 Lemma calc_preimage_no_panic b cm : calc_preimage b cm = Err \/ exists p, calc_preimage b cm = Ok p.
 Proof.
-  rewrite calc_preimage_eq. cbv zeta.
-  destruct (retain_or_fail_no_panic cm (used_langs b) cm_empty) as [->|[r ->]]; cbn [bind]; [left; reflexivity|].
+  unfold calc_preimage. rewrite calc_preimage_eq. cbv zeta.
+  destruct (retain_or_fail_no_panic cm (used_langs_gen stale_langs_counted b) cm_empty) as [->|[r ->]]; cbn [bind]; [left; reflexivity|].
   right. match goal with |- context [if ?c then _ else _] => destruct c end; eexists; reflexivity.
 Qed.
 
 (* C09_same_bytes, state form: if the hash in the builder was computed by calc_script_data_hash on a state with the
    same script items, the body's script_data_hash is the ledger's script-integrity hash of the emitted witness set *)
 Theorem same_bytes b0 cm b1 b t :
-  wf_builder b0 ->
+  wf_builder b0 -> known_stale_lang b0 = false ->
   calc_script_data_hash H b0 cm = Ok b1 ->
   (has_script_items b0 = true \/ b_script_data_hash b0 = None) ->
   script_view b = script_view b0 -> b_script_data_hash b = b_script_data_hash b1 ->
@@ -544,7 +609,7 @@ Theorem same_bytes b0 cm b1 b t :
   let fs := ws_fields (tx_witness_set t) in
   tx_script_data_hash t = ledger_script_integrity H (assoc_field 5 fs) (assoc_field 4 fs) (langs_used b) cm.
 Proof.
-  intros Hwf Hcalc Hprior Hview Hhash Hbuild fs. subst fs.
+  intros Hwf Hstale Hcalc Hprior Hview Hhash Hbuild fs. subst fs.
   destruct (script_view_eq _ _ Hview) as [_ [_ [Hws [Hlangs _]]]].
   assert (Ht : tx_script_data_hash t = b_script_data_hash b /\ tx_witness_set t = get_witness_set b).
   { unfold build_tx in Hbuild.
@@ -554,7 +619,7 @@ Proof.
   destruct Ht as [-> ->]. rewrite Hhash, Hws, Hlangs.
   unfold calc_script_data_hash in Hcalc.
   destruct (calc_preimage b0 cm) as [p| | |] eqn:EP; cbn [bind] in Hcalc; try discriminate.
-  pose proof (calc_preimage_spec b0 cm p Hwf EP) as HS. cbv zeta in HS.
+  pose proof (calc_preimage_spec b0 cm p Hwf Hstale EP) as HS. cbv zeta in HS.
   destruct p as [pre|].
   - injection Hcalc as <-. destruct HS as [_ [_ HS]]. rewrite HS. reflexivity.
   - injection Hcalc as <-. destruct HS as [Hno HS]. rewrite HS.
@@ -632,11 +697,12 @@ Theorem same_bytes_history ops cm before t :
   let b := fst (run H builder_new ops) in
   is_ok (calc_script_data_hash H b0 cm) = true ->
   has_script_items b0 || is_none (b_script_data_hash b0) = true ->
+  known_stale_lang b0 = false ->
   build_tx H b = Ok t ->
   let fs := ws_fields (tx_witness_set t) in
   tx_script_data_hash t = ledger_script_integrity H (assoc_field 5 fs) (assoc_field 4 fs) (langs_used b) cm.
 Proof.
-  intros Hl b0 b Hok Hprior Hbuild.
+  intros Hl b0 b Hok Hprior Hstale Hbuild.
   destruct (last_calc_rev_split _ _ _ Hl) as [rpost [Hro Hq]].
   assert (Hops : ops = rev before ++ OpCalc cm :: rev rpost).
   { rewrite <- (rev_involutive ops), Hro, rev_app_distr. cbn [rev]. rewrite <- app_assoc. reflexivity. }
@@ -681,18 +747,19 @@ Proof.
 Qed.
 
 (* calc_script_data_hash on a builder without script items changes nothing — a hash set earlier stays *)
-Lemma calc_noop_keeps_hash b cm : has_script_items b = false -> wf_builder b -> calc_script_data_hash H b cm = Ok b.
+Lemma calc_noop_keeps_hash b cm : has_script_items b = false -> wf_builder b -> known_stale_lang b = false ->
+  calc_script_data_hash H b cm = Ok b.
 Proof.
-  intros Hno Hwf. unfold calc_script_data_hash.
+  intros Hno Hwf Hstale. unfold calc_script_data_hash.
   destruct (calc_preimage_no_panic b cm) as [E|[p E]].
-  - exfalso. rewrite calc_preimage_eq in E. cbv zeta in E.
+  - exfalso. unfold calc_preimage in E. rewrite calc_preimage_eq in E. cbv zeta in E.
     unfold has_script_items in Hno. apply orb_false_iff in Hno as [Hw _].
     destruct (all_witnesses b) eqn:EW; [|discriminate].
-    assert (Hu : used_langs b = []).
-    { apply no_mem_nil. intros l. rewrite used_langs_mem. unfold langs_used. rewrite EW. reflexivity. }
+    assert (Hu : used_langs_gen stale_langs_counted b = []).
+    { apply no_mem_nil. intros l. rewrite (used_langs_mem _ b l Hstale). unfold langs_used. rewrite EW. reflexivity. }
     rewrite Hu in E. cbn [retain_or_fail bind] in E.
     match type of E with (if ?c then _ else _) = _ => destruct c end; discriminate.
-  - rewrite E. cbn [bind]. pose proof (calc_preimage_spec b cm p Hwf E) as HS. cbv zeta in HS.
+  - rewrite E. cbn [bind]. pose proof (calc_preimage_spec b cm p Hwf Hstale E) as HS. cbv zeta in HS.
     destruct p as [pre|]; [destruct HS as [Hi _]; congruence|reflexivity].
 Qed.
 
@@ -713,9 +780,11 @@ Definition sub_list (b : builder) (k : sub) : list witness :=
   | SubWithdrawals => b_withdrawals b | SubVotes => b_votes b | SubProposals => b_proposals b
   end.
 
+(* additive: a sub-builder that had Plutus witnesses is not replaced by one without, no stale witness (an input added
+   again as a key input), no hash installed by hand *)
 Definition additive_op (b : builder) (o : op) : bool :=
   match o with
-  | OpSetSub k ws _ => negb (is_nil ws) || is_nil (sub_list b k)
+  | OpSetSub k ss _ => (negb (is_nil (ss_witnesses ss)) || is_nil (sub_list b k)) && is_nil (ss_stale ss)
   | OpSetHash _ => false
   | _ => true
   end.
@@ -726,45 +795,69 @@ Fixpoint additive (b : builder) (ops : list op) : bool :=
   | o :: t => additive_op b o && additive (fst (step H b o)) t
   end.
 
-Definition hash_has_items (b : builder) : Prop := b_script_data_hash b = None \/ has_script_items b = true.
+Definition raw_stale (b : builder) : list lang :=
+  ss_stale (b_in b) ++ ss_stale (b_col b) ++ ss_stale (b_mi b) ++ ss_stale (b_ce b) ++ ss_stale (b_wd b) ++
+  ss_stale (b_vo b) ++ ss_stale (b_pr b).
+Definition hash_has_items (b : builder) : Prop :=
+  raw_stale b = [] /\ (b_script_data_hash b = None \/ has_script_items b = true).
 
 Lemma is_nil_app {A} (a b : list A) : is_nil (a ++ b) = is_nil a && is_nil b.
 Proof. destruct a; reflexivity. Qed.
 
-Lemma has_items_set_sub b k ws n : negb (is_nil ws) = true -> has_script_items (set_sub b k ws n) = true.
+Lemma no_stale_known b : raw_stale b = [] -> known_stale_lang b = false.
 Proof.
-  intros Hne. apply negb_true_iff in Hne. unfold has_script_items, all_witnesses.
-  destruct k; cbn [set_sub b_inputs b_collateral b_mint b_certs b_withdrawals b_votes b_proposals];
+  unfold raw_stale. intros Hb. repeat (apply app_eq_nil in Hb as [? Hb]).
+  unfold known_stale_lang, known_stale_lang_gen, stale_langs_gen, stale_in_gen, stale_sub_gen.
+  repeat match goal with E : ss_stale _ = [] |- _ => rewrite E; clear E end.
+  destruct stale_langs_counted; cbn [andb]; repeat (match goal with |- context [if ?c then _ else _] => destruct c end); reflexivity.
+Qed.
+
+Lemma has_items_set_sub b k ss n : negb (is_nil (ss_witnesses ss)) = true -> has_script_items (set_sub b k ss n) = true.
+Proof.
+  intros Hne. apply negb_true_iff in Hne. unfold has_script_items, all_witnesses, b_inputs, b_collateral, b_mint, b_certs, b_withdrawals, b_votes, b_proposals.
+  destruct k; cbn [set_sub b_in b_col b_mi b_ce b_wd b_vo b_pr];
     rewrite !is_nil_app, Hne; cbn [andb]; rewrite ?andb_false_r; reflexivity.
 Qed.
 
-Lemma set_sub_same_items b k ws n : is_nil ws = true -> is_nil (sub_list b k) = true ->
-  has_script_items (set_sub b k ws n) = has_script_items b /\ b_script_data_hash (set_sub b k ws n) = b_script_data_hash b.
+Lemma set_sub_same_items b k ss n : is_nil (ss_witnesses ss) = true -> is_nil (sub_list b k) = true ->
+  has_script_items (set_sub b k ss n) = has_script_items b /\ b_script_data_hash (set_sub b k ss n) = b_script_data_hash b.
 Proof.
-  intros Hw Hl. destruct ws; [|discriminate]. unfold has_script_items, all_witnesses.
-  destruct k; cbn [sub_list] in Hl; cbn [set_sub b_inputs b_collateral b_mint b_certs b_withdrawals b_votes b_proposals b_extra_datums b_script_data_hash];
-    match type of Hl with is_nil ?l = true => destruct l; [|discriminate] end; split; reflexivity.
+  intros Hw Hl. destruct (ss_witnesses ss) eqn:Ew; [|discriminate].
+  unfold has_script_items, all_witnesses, b_inputs, b_collateral, b_mint, b_certs, b_withdrawals, b_votes, b_proposals in *.
+  destruct k; cbn [sub_list b_inputs b_collateral b_mint b_certs b_withdrawals b_votes b_proposals] in Hl;
+    unfold b_inputs, b_collateral, b_mint, b_certs, b_withdrawals, b_votes, b_proposals in Hl;
+    cbn [set_sub b_in b_col b_mi b_ce b_wd b_vo b_pr b_extra_datums b_script_data_hash];
+    rewrite Ew; match type of Hl with is_nil ?l = true => destruct l; [|discriminate] end; split; reflexivity.
+Qed.
+
+Lemma stale_set_sub b k ss n : raw_stale b = [] -> is_nil (ss_stale ss) = true -> raw_stale (set_sub b k ss n) = [].
+Proof.
+  unfold raw_stale. intros Hb Hs. destruct (ss_stale ss) eqn:Es; [|discriminate].
+  repeat (apply app_eq_nil in Hb as [? Hb]).
+  destruct k; cbn [set_sub b_in b_col b_mi b_ce b_wd b_vo b_pr]; rewrite ?Es;
+    repeat match goal with E : _ = [] |- _ => rewrite E; clear E end; reflexivity.
 Qed.
 
 Lemma additive_step b o : wf_builder b -> hash_has_items b -> additive_op b o = true -> hash_has_items (fst (step H b o)).
 Proof.
-  intros Hwf Hi Ha. destruct o; cbn [additive_op] in Ha; cbn [step fst].
-  - apply orb_true_iff in Ha as [Hne|Hold].
+  intros Hwf [Hst Hi] Ha. destruct o; cbn [additive_op] in Ha; cbn [step fst].
+  - apply andb_true_iff in Ha as [Ha Hs]. split; [apply stale_set_sub; assumption|].
+    apply orb_true_iff in Ha as [Hne|Hold].
     + right. apply has_items_set_sub, Hne.
-    + destruct (is_nil ws) eqn:Ew.
-      * destruct (set_sub_same_items b k ws n Ew Hold) as [E1 E2]. unfold hash_has_items. rewrite E1, E2. exact Hi.
+    + destruct (is_nil (ss_witnesses ss)) eqn:Ew.
+      * destruct (set_sub_same_items b k ss n Ew Hold) as [E1 E2]. rewrite E1, E2. exact Hi.
       * right. apply has_items_set_sub. rewrite Ew. reflexivity.
-  - right. unfold has_script_items, add_extra_witness_datum. cbn [b_extra_datums is_some]. apply orb_true_r.
-  - unfold calc_script_data_hash. destruct (calc_preimage b cm) as [p| | |] eqn:EP; cbn [bind fst]; try exact Hi.
-    pose proof (calc_preimage_spec H b cm p Hwf EP) as HS. cbv zeta in HS.
-    destruct p as [pre|]; cbn [fst]; [|exact Hi]. destruct HS as [Hitems _]. right. exact Hitems.
+  - split; [exact Hst|]. right. unfold has_script_items, add_extra_witness_datum. cbn [b_extra_datums is_some]. apply orb_true_r.
+  - unfold calc_script_data_hash. destruct (calc_preimage b cm) as [p| | |] eqn:EP; cbn [bind fst]; try (split; assumption).
+    pose proof (calc_preimage_spec H b cm p Hwf (no_stale_known b Hst) EP) as HS. cbv zeta in HS.
+    destruct p as [pre|]; cbn [fst]; [|split; assumption]. destruct HS as [Hitems _]. split; [exact Hst|]. right. exact Hitems.
   - discriminate.
-  - left. reflexivity.
-  - exact Hi.
-  - exact Hi.
-  - exact Hi.
-  - exact Hi.
-  - exact Hi.
+  - split; [exact Hst|]. left. reflexivity.
+  - split; assumption.
+  - split; assumption.
+  - split; assumption.
+  - split; assumption.
+  - split; assumption.
 Qed.
 
 Lemma additive_run ops : forall b, wf_builder b -> hash_has_items b -> additive b ops = true ->
@@ -781,7 +874,7 @@ Proof.
   cbn [app additive] in *. apply andb_true_iff in Ha as [Ho Ht]. rewrite Ho. exact (IH _ Ht).
 Qed.
 
-(* C09_same_bytes for additions-only histories: no premise about the earlier hash is needed *)
+(* C09_same_bytes for additions-only histories: no premise about the earlier hash or stale witnesses is needed *)
 Theorem same_bytes_additive ops cm before t :
   additive builder_new ops = true ->
   last_calc_rev (rev ops) = Some (cm, before) ->
@@ -793,19 +886,46 @@ Theorem same_bytes_additive ops cm before t :
   tx_script_data_hash t = ledger_script_integrity H (assoc_field 5 fs) (assoc_field 4 fs) (langs_used b) cm.
 Proof.
   intros Hadd Hl b0 b Hok Hbuild.
-  apply (same_bytes_history H ops cm before t Hl Hok); [|exact Hbuild].
   destruct (last_calc_rev_split _ _ _ Hl) as [rpost [Hro _]].
   assert (Hops : ops = rev before ++ (OpCalc cm :: rev rpost)).
   { rewrite <- (rev_involutive ops), Hro, rev_app_distr. cbn [rev]. rewrite <- app_assoc. reflexivity. }
   rewrite Hops in Hadd. apply additive_app in Hadd.
   assert (Hi : hash_has_items b0).
-  { apply additive_run; [apply wf_new|left; reflexivity|exact Hadd]. }
-  unfold hash_has_items, b0 in Hi. destruct Hi as [Hn|Hitems].
+  { apply additive_run; [apply wf_new|split; [reflexivity|left; reflexivity]|exact Hadd]. }
+  destruct Hi as [Hst Hi].
+  apply (same_bytes_history H ops cm before t Hl Hok); [|apply no_stale_known, Hst|exact Hbuild].
+  unfold b0 in Hi. destruct Hi as [Hn|Hitems].
   - rewrite Hn. apply orb_true_r.
   - rewrite Hitems. reflexivity.
 Qed.
 
 End Additive.
+
+(* the defect behind the class C09-stale-input-language: an input added with a PlutusV1 witness and then again as a key
+   input leaves the witness registered; calc_script_data_hash hashes a PlutusV1 language view although the emitted
+   transaction has no redeemer, no datum and no script — the ledger expects NO script_data_hash *)
+Definition stale_lang_witness : witness := mk_witness (SrcRef V2) DatumNone (mk_redeemer 0 0 (mk_pdata 1 [1]) 10 20).
+Definition stale_lang_cm : costmdls := mk_costmdls (Some [1; 2]%Z) (Some [3]%Z) None.
+Definition stale_lang_ops : list op :=
+  [OpSetSub SubCollateral (mk_sub [] [] []) 1; OpSetSub SubInputs (mk_sub [stale_lang_witness] [V1] []) 0; OpCalc stale_lang_cm].
+
+Definition stale_lang_builder : builder :=
+  set_sub (set_sub builder_new SubCollateral (mk_sub [] [] []) 1) SubInputs (mk_sub [stale_lang_witness] [V1] []) 0.
+
+Theorem stale_lang_refuted :
+  exists p_hashed p_ledger,
+    (* with the languages taken from the registrations (the code as found) *)
+    calc_preimage_gen true stale_lang_builder stale_lang_cm = Ok (Some p_hashed) /\
+    (let fs := ws_fields (get_witness_set stale_lang_builder) in
+     p_ledger = ledger_preimage (assoc_field 5 fs) (assoc_field 4 fs) (spec_views (langs_used stale_lang_builder) stale_lang_cm)) /\
+    (* the hashed preimage carries a PlutusV1 view that the ledger's does not *)
+    p_hashed <> p_ledger /\
+    known_stale_lang_gen true stale_lang_builder = true /\
+    (* with the languages taken from the collected witnesses (after the repair) the two coincide *)
+    calc_preimage_gen false stale_lang_builder stale_lang_cm = Ok (Some p_ledger).
+Proof.
+  eexists _, _. split; [reflexivity|]. split; [reflexivity|]. split; [vm_compute; discriminate|]. split; reflexivity.
+Qed.
 
 (* ================================================================== auxiliary data: histories and wire forms *)
 Section AuxHistory.
